@@ -311,6 +311,44 @@ func builtinIntrinsics() map[string]intrinsic {
 		}
 		return m.f.Const(64, ^uint64(0))
 	}
+	// substring search: leftmost match, decided position by position (fork only where a match is undetermined)
+	indexTerms := func(m *Machine, hay, needle []*Term) Value {
+		for i := 0; i+len(needle) <= len(hay); i++ {
+			c := m.f.tru
+			for j := range needle {
+				c = m.f.And(c, m.f.Cmp(OEq, hay[i+j], needle[j]))
+			}
+			if m.branchT(c) {
+				return m.f.Const(64, uint64(i))
+			}
+		}
+		return m.f.Const(64, ^uint64(0))
+	}
+	I["internal/bytealg.IndexString"] = func(m *Machine, _ *frame, a []Value) Value {
+		h, n := a[0].(*Str), a[1].(*Str)
+		if h.IsConc() && n.IsConc() {
+			return m.f.Const(64, uint64(int64(strings.Index(h.s, n.s))))
+		}
+		ht, nt := make([]*Term, h.Len()), make([]*Term, n.Len())
+		for i := range ht {
+			ht[i] = m.strAt(h, i)
+		}
+		for i := range nt {
+			nt[i] = m.strAt(n, i)
+		}
+		return indexTerms(m, ht, nt)
+	}
+	I["internal/bytealg.Index"] = func(m *Machine, _ *frame, a []Value) Value {
+		h, n := a[0].(Slice), a[1].(Slice)
+		ht, nt := make([]*Term, len(h)), make([]*Term, len(n))
+		for i := range ht {
+			ht[i] = h[i].(*Term)
+		}
+		for i := range nt {
+			nt[i] = n[i].(*Term)
+		}
+		return indexTerms(m, ht, nt)
+	}
 	I["internal/bytealg.LastIndexByteString"] = func(m *Machine, _ *frame, a []Value) Value {
 		s := a[0].(*Str)
 		c := a[1].(*Term)
@@ -384,8 +422,8 @@ func builtinIntrinsics() map[string]intrinsic {
 		}
 		return s
 	}
-	I["internal/stringslite.Index"] = nil
-	delete(I, "internal/stringslite.Index")
+	I["internal/stringslite.Index"] = I["internal/bytealg.IndexString"]
+	I["bytes.Index"] = I["internal/bytealg.Index"]
 
 	// strings.Builder
 	I["(*strings.Builder).String"] = func(m *Machine, _ *frame, a []Value) Value {
